@@ -94,11 +94,18 @@ class FileRefs(ast.NodeVisitor):
         self.refs = []           # (dotted root path, [attrs], line, guarded)
         self.kwcalls = []        # (dotted root path, [attrs], [keyword names], line, guarded)
         self.guard = 0
+        self.guard_attr = 0      # inside a try whose handlers catch AttributeError
+        self.guard_imp = 0       # inside a try whose handlers catch ImportError / ModuleNotFoundError
+        self.unbound = []        # (root name, [attrs], line): library-looking root name that is not bound in the module
         self.assigned = set()
 
     # --- guards
     def visit_Try(self, node):
-        guarded = False
+        # the handler must catch what the body's failure RAISES: a missing attribute raises AttributeError, a missing
+        # module or a missing name in `from m import x` raises ImportError; `except ImportError:` around an attribute
+        # access guards nothing
+        guarded = False          # catches everything (bare / Exception): guards attribute references and imports
+        g_attr = g_imp = False
         for h in node.handlers:
             names = []
             t = h.type
@@ -107,14 +114,22 @@ class FileRefs(ast.NodeVisitor):
             else:
                 for e in (t.elts if isinstance(t, ast.Tuple) else [t]):
                     names.append(getattr(e, "id", getattr(e, "attr", "")))
-                if {"ImportError", "AttributeError", "ModuleNotFoundError", "Exception"} & set(names):
+                if {"Exception", "BaseException"} & set(names):
                     guarded = True
+                if "AttributeError" in names:
+                    g_attr = True
+                if {"ImportError", "ModuleNotFoundError"} & set(names):
+                    g_imp = True
         if guarded:
             self.guard += 1
+        self.guard_attr += (1 if g_attr else 0)
+        self.guard_imp += (1 if g_imp else 0)
         for s in node.body:
             self.visit(s)
         if guarded:
             self.guard -= 1
+        self.guard_attr -= (1 if g_attr else 0)
+        self.guard_imp -= (1 if g_imp else 0)
         for h in node.handlers:
             # the body of an `except ImportError / AttributeError / ModuleNotFoundError` handler is the version-fallback
             # idiom (`try: new name / except AttributeError: old name`): it only runs where the primary name is missing,
@@ -164,7 +179,7 @@ class FileRefs(ast.NodeVisitor):
             top = a.name.split(".")[0]
             if top in INTERNAL:
                 continue
-            self.imports.append((a.name, node.lineno, self.guard > 0))
+            self.imports.append((a.name, node.lineno, self.guard > 0 or self.guard_imp > 0))
             if a.asname:
                 self.alias[a.asname] = a.name
             else:
@@ -176,11 +191,11 @@ class FileRefs(ast.NodeVisitor):
         mod = node.module
         for a in node.names:
             if a.name == "*" and mod.split(".")[0] in OPTIONAL:
-                self.from_imports.append((mod, "*", node.lineno, self.guard > 0))
+                self.from_imports.append((mod, "*", node.lineno, self.guard > 0 or self.guard_imp > 0))
                 continue
             if a.name == "*":
                 raise ValueError("%s:%d star import from external module" % (self.rel, node.lineno))
-            self.from_imports.append((mod, a.name, node.lineno, self.guard > 0))
+            self.from_imports.append((mod, a.name, node.lineno, self.guard > 0 or self.guard_imp > 0))
             self.alias[a.asname or a.name] = mod + "." + a.name
 
     # --- light local type inference: names bound only to results of numpy array constructors
@@ -212,7 +227,7 @@ class FileRefs(ast.NodeVisitor):
         for n in ast.walk(node):
             if isinstance(n, ast.Attribute) and isinstance(n.value, ast.Name) and n.value.id in arrays \
                     and n.lineno > arrays[n.value.id] and isinstance(n.ctx, ast.Load):
-                self.refs.append(("numpy.ndarray", [n.attr], n.lineno, self.guard > 0))
+                self.refs.append(("numpy.ndarray", [n.attr], n.lineno, self.guard > 0 or self.guard_attr > 0))
         self.generic_visit(node)
 
     visit_AsyncFunctionDef = visit_FunctionDef
@@ -229,7 +244,7 @@ class FileRefs(ast.NodeVisitor):
                 m = m.value
             if isinstance(m, ast.Name) and m.id in self.alias and self.alias[m.id] == "numpy" \
                     and len(parts) == 1 and parts[0] in ARRAY_MAKERS:
-                self.refs.append(("numpy.ndarray", [node.attr], node.lineno, self.guard > 0))
+                self.refs.append(("numpy.ndarray", [node.attr], node.lineno, self.guard > 0 or self.guard_attr > 0))
         chain = []
         n = node
         while isinstance(n, ast.Attribute):
@@ -237,8 +252,11 @@ class FileRefs(ast.NodeVisitor):
             n = n.value
         if isinstance(n, ast.Name) and n.id in self.alias:
             chain.reverse()
-            self.refs.append((self.alias[n.id], chain, node.lineno, self.guard > 0))
+            self.refs.append((self.alias[n.id], chain, node.lineno, self.guard > 0 or self.guard_attr > 0))
         else:
+            if isinstance(n, ast.Name) and n.id in LIBRARY_ROOT_NAMES and isinstance(n.ctx, ast.Load):
+                chain.reverse()
+                self.unbound.append((n.id, chain, node.lineno))      # decided after the whole module was seen
             self.visit(n)
 
     def _dynamic_import(self, node):
@@ -252,7 +270,7 @@ class FileRefs(ast.NodeVisitor):
         if name and node.args and isinstance(node.args[0], ast.Constant) and isinstance(node.args[0].value, str):
             mod = node.args[0].value
             if mod.split(".")[0] not in INTERNAL and not mod.startswith("."):
-                self.imports.append((mod, node.lineno, self.guard > 0))
+                self.imports.append((mod, node.lineno, self.guard > 0 or self.guard_imp > 0))
 
     def _keyword_call(self, node):
         kws = [k.arg for k in node.keywords if k.arg is not None]
@@ -264,7 +282,7 @@ class FileRefs(ast.NodeVisitor):
             n = n.value
         if isinstance(n, ast.Name) and n.id in self.alias and chain:
             chain.reverse()
-            self.kwcalls.append((self.alias[n.id], chain, kws, node.lineno, self.guard > 0))
+            self.kwcalls.append((self.alias[n.id], chain, kws, node.lineno, self.guard > 0 or self.guard_attr > 0))
 
     def visit_Call(self, node):
         self._dynamic_import(node)
@@ -359,6 +377,27 @@ def fresh_modules(import_list, paths, callees=()):
     r = _json.loads(p.stdout)
     return r["modules"], r["signatures"]
 
+
+
+LIBRARY_ROOT_NAMES = {"numpy", "np", "scipy", "sp", "h5py"}
+
+
+def names_bound_in(tree):
+    """every name bound anywhere in the module (imports, assignments, definitions, parameters, loop/with/except targets)"""
+    out = set()
+    for n in ast.walk(tree):
+        if isinstance(n, (ast.Import, ast.ImportFrom)):
+            for a in n.names:
+                out.add((a.asname or a.name).split(".")[0])
+        elif isinstance(n, (ast.FunctionDef, ast.AsyncFunctionDef, ast.ClassDef)):
+            out.add(n.name)
+        elif isinstance(n, ast.Name) and isinstance(n.ctx, (ast.Store, ast.Del)):
+            out.add(n.id)
+        elif isinstance(n, ast.arg):
+            out.add(n.arg)
+        elif isinstance(n, ast.ExceptHandler) and n.name:
+            out.add(n.name)
+    return out
 
 def _mentions_available(test):
     for n in ast.walk(test):
@@ -470,6 +509,11 @@ def generate(repo):
         tree = ast.parse(src, filename=rel)
         v = FileRefs(rel)
         v.visit(tree)
+        bound = names_bound_in(tree)
+        for nm, chain, line in v.unbound:
+            if nm not in bound:
+                # `scipy.constants.N_A` in a module that no longer binds `scipy`: NameError at run time
+                refs.append(("<name not bound in this module>", nm, rel, line, False))
         visitors.append((rel, v))
     # names that exist only when an optional dependency is installed must not be used by code that runs without it
     trees = {}
